@@ -6,16 +6,23 @@
               (right neighbour / bottom-left neighbour); otherwise a count never reaches zero or reaches it early
   C24.HANDOUT every hand-out  *out = row[R].current_seg_index  is followed by  ++row[R].current_seg_index  for the same R
               before the lock region ends (no segment is handed out twice)
+  C24.UNITS   superblock-grid arithmetic is dimensionally consistent: a row stride counted in units of one block size (64x64
+              analysis blocks vs the 64/128 coding superblock) is only combined with coordinates that are scaled to pixels by
+              the same block size (engine/units.py: units by divisor provenance, flow-sensitive through locals, by agreement
+              of stores through members).  Linearisations y*W+x, de-linearisations i%W / i/W and pixel scalings x<<log2(D)
+              are the obligations, in every live encoder function
   C24.FEED    the feedback task taken from the pool is always posted (no lost token), the function leaks no mutex
 """
 from engine.facts import pstr, strip, callee_name, subexprs, fields_in, last_field, root_of, AnalysisBroken
 from engine.locks import LockAnalysis, single_assign_aliases, subst
+from engine.units import Units, summands
+from engine.classes import Classes
 
 PID = 'C24'
 
 META = {
-    'technique': 'lockset dataflow + sibling agreement of normalised guard/target expression trees (init increments vs run-time decrements) + post-dominance on the event-CFG',
-    'text': 'Decides the structure that makes the wavefront dependency counting sound under every worker interleaving: counter and row-cursor accesses under the row mutex of the same row, init-time increments and run-time decrements using equal guards and targets, hand-out immediately followed by the cursor increment inside the lock, feedback token always posted. Does not decide that the band/row arithmetic covers each superblock exactly once for every grid (exhaustive evaluation, a different technique). Also decided: the segment grid handed to enc_dec_segments_init is clamped by the superblock dimensions of the tile group it partitions (in the callee, or at every call site against the very expression passed as the dimension).',
+    'technique': 'units-of-measure inference for superblock-grid quantities (divisor provenance, reaching definitions, store agreement) + lockset dataflow + sibling agreement of normalised guard/target expression trees (init increments vs run-time decrements) + post-dominance on the event-CFG',
+    'text': 'Decides the structure that makes the wavefront dependency counting sound under every worker interleaving: counter and row-cursor accesses under the row mutex of the same row, init-time increments and run-time decrements using equal guards and targets, hand-out immediately followed by the cursor increment inside the lock, feedback token always posted. Does not decide that the band/row arithmetic covers each superblock exactly once for every grid (exhaustive evaluation, a different technique). Also decided (UNITS): segment / superblock coordinates and the row strides they are linearised with are counted in the same block size (dimension analysis). Also decided: the segment grid handed to enc_dec_segments_init is clamped by the superblock dimensions of the tile group it partitions (in the callee, or at every call site against the very expression passed as the dimension).',
     'note': 'MDC_INPUT / ENCDEC_INPUT cases are lock-free by protocol (the picture / row is owned by exactly one task at that point) and exempt with that reason; only valid segments are ever scheduled (init-side extra conjunct valid_sb_count_array[s])',
     'ref': 'DESIGN.md section 5 C24',
 }
@@ -82,6 +89,7 @@ def run(P, rep, tier):
                        'cursor increments and feedback posts.' % (asg.loc(), ini.loc()))
     rep.analysed = {'functions': [asg.name, ini.name]}
     rep.assumptions = ['only valid segments are scheduled', 'the task types are produced as documented (MDC_INPUT once per picture/tile group)']
+    run_units(P, rep)
     al = single_assign_aliases(asg)
     a = la.analyse(asg)
     cls = {ident: c for _, _, ident, c, _ in a['events']}
@@ -334,3 +342,133 @@ def run(P, rep, tier):
                ('%d uses of %s all see min(%s, %s)' % (len(uses), cname, cname, dname)) if bad is None else
                ('segment count %s can exceed the superblock dimension %s it partitions: %s' % (cname, dname, bad[1])))
     rep.floor('C24.GRID', 2)
+
+
+# ------------------------------------------------------------------------------------------------------------------- UNITS
+def run_units(P, rep):
+    C = Classes(P)
+    live = [f for f in P.fns if f.lib == 'Encoder' and not f.nocfg and f not in C.dead]
+    U = Units(P, live)
+    nob = 0
+    stats = {'functions': 0, 'linearisations': 0, 'delinearisations': 0, 'scalings': 0}
+
+    def leaves(e):
+        out = []
+        for s_ in summands(e):
+            s_ = strip(s_)
+            if s_ and s_[0] in ('v', 'm'):
+                out.append(s_)
+        return out
+
+    def lkey(x):
+        return ('v', x[1]) if x[0] == 'v' else ('m', x[1])
+
+    for f in live:
+        # ---- use-units: coordinate leaves scaled to pixels by a known block size
+        use = {}
+        scal = []
+        evs = [ev for ev in f.events(('st', 'decl', 'call', 'ret')) if ev.get('e') is not None]
+        for ev in evs:
+            for x in subexprs(ev['e']):
+                if x[0] != 'b' or x[1] not in ('<<', '*'):
+                    continue
+                for a, b in ((x[2], x[3]), (x[3], x[2])):
+                    if x[1] == '<<' and a is x[3]:
+                        continue
+                    d = U.logsize(b, f, ev) if x[1] == '<<' else U.size(b, f, ev)
+                    if d is None or (strip(b)[0] == 'l' and x[1] == '*'):
+                        # x * 64 with a bare literal is too common outside grid arithmetic (strides, Q6 scaling): not evidence
+                        continue
+                    if x[1] == '<<' and strip(b)[0] == 'l':
+                        continue
+                    ls = leaves(a)
+                    if ls:
+                        scal.append((ev, x, a, d))
+                    for l_ in ls:
+                        use.setdefault(lkey(l_), set()).add(d)
+        if not use and not any('pic_width_in_sb' in str(ev['e']) or 'sb_width' in str(ev['e']) for ev in evs[:0]):
+            pass
+        touched = False
+        seen_sum = set()
+        for ev in evs:
+            for x in subexprs(ev['e']):
+                # ---- K1: linearisation  y * W + x
+                if x[0] == 'b' and x[1] in ('+', '-') and id(x) not in seen_sum:
+                    for y in subexprs(x):
+                        if y is not x and y[0] == 'b' and y[1] in ('+', '-'):
+                            pass
+                    S = summands(x)
+                    def mark(n_):
+                        n_ = strip(n_)
+                        if n_ and n_[0] == 'b' and n_[1] in ('+', '-'):
+                            seen_sum.add(id(n_)); mark(n_[2]); mark(n_[3])
+                    mark(x)
+                    muls = [s_ for s_ in S if s_ and s_[0] == 'b' and s_[1] == '*']
+                    for m_ in muls:
+                        fa, fb = strip(m_[2]), strip(m_[3])
+                        ua, ub = U.unit(fa, f, ev), U.unit(fb, f, ev)
+                        if ua is None and ub is None:
+                            continue
+                        known = {}
+                        if ua:
+                            known['%s counted in' % pstr(fa)[:40]] = ua
+                        if ub:
+                            known['%s counted in' % pstr(fb)[:40]] = ub
+                        coords = [l_ for s_ in S if s_ is not m_ for l_ in leaves(s_)] + leaves(fa if ub else fb) + (leaves(fb) if ua and ub else [])
+                        for c_ in coords:
+                            uc = U.unit(c_, f, ev)
+                            if uc:
+                                known['%s counted in' % pstr(c_)[:40]] = uc
+                            for d in use.get(lkey(c_), ()):
+                                known['%s scaled to pixels by' % pstr(c_)[:40]] = d if ('%s scaled to pixels by' % pstr(c_)[:40]) not in known or known['%s scaled to pixels by' % pstr(c_)[:40]] == d else 'CONFLICT'
+                        if len(known) < 2:
+                            continue
+                        stats['linearisations'] += 1
+                        touched = True
+                        ok = len(set(known.values())) == 1
+                        nob += 1
+                        rep.ob('C24.UNITS', 'lin:%s@%s' % (f.name, pstr(m_)[:60]), ok, f.loc(ev),
+                               ('linearisation %s: all quantities in units of %s' % (pstr(x)[:70], sorted(set(known.values()))[0])) if ok else
+                               'linearisation %s mixes block sizes: %s' % (pstr(x)[:70], '; '.join('%s %s' % kv for kv in sorted(known.items()))))
+                # ---- K3: pixel scaling of a count defined in another unit
+                if x[0] == 'b' and x[1] in ('<<', '*'):
+                    for a, b in ((x[2], x[3]), (x[3], x[2])):
+                        if x[1] == '<<' and a is x[3]:
+                            continue
+                        d = U.logsize(b, f, ev) if x[1] == '<<' else U.size(b, f, ev)
+                        if d is None or strip(b)[0] == 'l':
+                            continue
+                        defs = {}
+                        for l_ in leaves(a):
+                            ul = U.unit(l_, f, ev)
+                            if ul:
+                                defs[pstr(l_)[:40]] = ul
+                        if not defs:
+                            continue
+                        stats['scalings'] += 1
+                        touched = True
+                        ok = set(defs.values()) == {d}
+                        nob += 1
+                        rep.ob('C24.UNITS', 'scale:%s@%s' % (f.name, pstr(x)[:60]), ok, f.loc(ev),
+                               ('%s: count and scale both in %s' % (pstr(x)[:60], d)) if ok else
+                               '%s scales by %s a quantity counted in %s' % (pstr(x)[:60], d, defs))
+            # ---- K5: de-linearisation  n = i % W  /  n = i / W, n later scaled to pixels
+            e = ev['e']
+            name, rhs = (ev['n'], e) if ev['k'] == 'decl' else ((strip(e[2])[1], e[3]) if ev['k'] == 'st' and e[0] == 'a' and e[1] == '=' and strip(e[2])[0] == 'v' else (None, None))
+            if name:
+                r = strip(rhs)
+                if r and r[0] == 'b' and r[1] in ('%', '/'):
+                    uw = U.unit(r[3], f, ev)
+                    us = use.get(('v', name), set())
+                    if uw and us:
+                        stats['delinearisations'] += 1
+                        touched = True
+                        ok = us == {uw}
+                        nob += 1
+                        rep.ob('C24.UNITS', 'delin:%s@%s' % (f.name, name), ok, f.loc(ev),
+                               ('%s = %s: stride and pixel scaling both in %s' % (name, pstr(r)[:50], uw)) if ok else
+                               '%s = %s splits an index with a stride counted in %s, but %s is scaled to pixels by %s' % (name, pstr(r)[:50], uw, name, sorted(us)))
+        if touched:
+            stats['functions'] += 1
+    rep.analysed['units'] = stats
+    rep.floor('C24.UNITS', 8)
